@@ -201,6 +201,95 @@ func ruleNum(c *Ctx) {
 		} else {
 			l.add("R-NUM", "v5", key, "", Discharged, "no call of strconv.ParseFloat/ParseInt/ParseUint, Number.Float64/Int64 or math/big in the library; strconv.Atoi is applied only to reference tokens (in "+strings.Join(dedup(atoi), ", ")+")", true)
 		}
+		// (vi) every decode the library asks of the codec keeps number literals: the entry point forces
+		// useNumber before it decodes, or — for a streaming Decoder — UseNumber was called on that
+		// decoder before Decode.
+		{
+			um := b.method(b.Codec, "decodeState", "unmarshal")
+			decodes := func(f *ssa.Function) ssa.CallInstruction {
+				for _, ci := range callsTo(f, func(cc *ssa.CallCommon) bool {
+					g := cc.StaticCallee()
+					return g != nil && (g == um || (recvTypeName(g) == "decodeState" && g.Name() == "value"))
+				}) {
+					return ci
+				}
+				return nil
+			}
+			setsUseNumber := func(f *ssa.Function, before ssa.Instruction) bool {
+				ok := false
+				allInstrs(f, func(i ssa.Instruction) {
+					st, isSt := i.(*ssa.Store)
+					if !isSt {
+						return
+					}
+					fa, isFA := st.Addr.(*ssa.FieldAddr)
+					if !isFA || fieldName(fa.X.Type(), fa.Field) != "useNumber" {
+						return
+					}
+					if k, isK := boolConst(st.Val); isK && k && b.instrDominates(st, before) {
+						ok = true
+					}
+				})
+				return ok
+			}
+			nSites := 0
+			for _, fn := range append(b.srcFuncs(b.Lib), b.srcFuncs(b.Cmd)...) {
+				allInstrs(fn, func(i ssa.Instruction) {
+					call, ok := i.(*ssa.Call)
+					if !ok {
+						return
+					}
+					f := call.Call.StaticCallee()
+					if f == nil || f.Pkg != b.Codec || f.Blocks == nil {
+						return
+					}
+					d := decodes(f)
+					if d == nil {
+						return
+					}
+					nSites++
+					key := fmt.Sprintf("%s: decode through %s keeps number literals", b.canonFname(fn), fname(f))
+					switch {
+					case setsUseNumber(f, d):
+						l.add("R-NUM", "v5", key, b.posOf(call), Discharged, fname(f)+" stores true into useNumber before it decodes", true)
+					case recvTypeName(f) == "Decoder":
+						recv := call.Call.Args[0]
+						found := false
+						for _, r := range *recv.Referrers() {
+							c2, ok := r.(*ssa.Call)
+							if !ok {
+								continue
+							}
+							g := c2.Call.StaticCallee()
+							if g == nil || recvTypeName(g) != "Decoder" || len(c2.Call.Args) == 0 || c2.Call.Args[0] != recv {
+								continue
+							}
+							sets := false
+							allInstrs(g, func(j ssa.Instruction) {
+								if st, ok := j.(*ssa.Store); ok {
+									if fa, ok := st.Addr.(*ssa.FieldAddr); ok && fieldName(fa.X.Type(), fa.Field) == "useNumber" {
+										if k, isK := boolConst(st.Val); isK && k {
+											sets = true
+										}
+									}
+								}
+							})
+							if sets && b.instrDominates(c2, call) {
+								found = true
+							}
+						}
+						if found {
+							l.add("R-NUM", "v5", key, b.posOf(call), Discharged, "UseNumber is called on this decoder before Decode", true)
+						} else {
+							l.add("R-NUM", "v5", key, b.posOf(call), Violated, "the streaming decoder is used without UseNumber: numbers are converted to float64, so a literal outside its range is rejected and every other literal loses its spelling", true)
+						}
+					default:
+						l.add("R-NUM", "v5", key, b.posOf(call), Violated, fname(f)+" decodes without forcing useNumber: numbers are converted to float64 (a literal outside its range is an error, other literals lose their spelling)", true)
+					}
+				})
+			}
+			l.stat("R-NUM").Extra["v5_decode_call_sites"] = nSites
+		}
 		// Number values are compared with == only
 		key = "v5 library: values asserted to json.Number are used only in == / != comparisons"
 		bad = ""
